@@ -6,13 +6,16 @@
 //!   packages/tokens/src/rwa/extensions/doc_manager/storage.rs          "docs"
 //!   packages/tokens/src/rwa/identity_registry_storage/storage.rs       "irs"
 //!   packages/tokens/src/rwa/compliance/storage.rs (module lists)       "modules"
+//!   packages/tokens/src/rwa/identity_claims/storage.rs                 "claims"
 //! None of these library functions demands an authorization, so every call is made with no
 //! authorization attached.  `allow_key` asks the registry contract it is given whether the claim
 //! issuer may sign the topic; the registries of the "keys" universe are mock contracts answering yes
 //! (`is_authorized_for`, which only forwards that question, is therefore not part of the judged
 //! observation).  Capacity limits are read from the library's public constants and travel in the
 //! reset event.  `linked_token_count` is not exported by the library: the binder's count is the length
-//! of `linked_tokens`.
+//! of `linked_tokens`.  `add_claim` asks the issuer contract `is_claim_valid` first: the issuers of the
+//! "claims" universe are scripted contracts that trap iff their flag is set (op "add_invalid" sets it for
+//! the duration of the call); whether a claim is cryptographically valid is property C15's business.
 #![allow(dead_code)]
 use std::collections::{BTreeMap, BTreeSet, HashMap};
 
@@ -22,6 +25,7 @@ use stellar_tokens::rwa::{
     claim_topics_and_issuers::{MAX_CLAIM_TOPICS, MAX_ISSUERS},
     compliance::{ComplianceHook, MAX_MODULES},
     extensions::doc_manager as docs_lib,
+    identity_claims::Claim,
     identity_registry_storage::{
         CountryData, CountryRelation, IdentityType, IndividualCountryRelation, OrganizationCountryRelation,
         MAX_COUNTRY_ENTRIES,
@@ -258,6 +262,53 @@ mod modules_c {
     }
 }
 
+mod claims_c {
+    use soroban_sdk::{contract, contractimpl, Address, Bytes, BytesN, Env, String, Vec};
+    use stellar_tokens::rwa::identity_claims as lib;
+
+    #[contract]
+    pub struct Claims;
+
+    #[contractimpl]
+    impl Claims {
+        pub fn add_claim(e: &Env, topic: u32, scheme: u32, issuer: Address, signature: Bytes, data: Bytes, uri: String) -> BytesN<32> {
+            lib::add_claim(e, topic, scheme, &issuer, &signature, &data, &uri)
+        }
+        pub fn get_claim(e: &Env, claim_id: BytesN<32>) -> lib::Claim {
+            lib::get_claim(e, &claim_id)
+        }
+        pub fn get_claim_ids_by_topic(e: &Env, topic: u32) -> Vec<BytesN<32>> {
+            lib::get_claim_ids_by_topic(e, topic)
+        }
+        pub fn remove_claim(e: &Env, claim_id: BytesN<32>) {
+            lib::remove_claim(e, &claim_id)
+        }
+        pub fn generate_claim_id(e: &Env, issuer: Address, topic: u32) -> BytesN<32> {
+            lib::generate_claim_id(e, &issuer, topic)
+        }
+    }
+}
+
+/// A scripted claim issuer: `is_claim_valid` traps iff the flag is set.
+mod issuer_c {
+    use soroban_sdk::{contract, contractimpl, symbol_short, Address, Bytes, Env};
+
+    #[contract]
+    pub struct ScriptedIssuer;
+
+    #[contractimpl]
+    impl ScriptedIssuer {
+        pub fn set_reject(e: &Env, reject: bool) {
+            e.storage().instance().set(&symbol_short!("reject"), &reject);
+        }
+        pub fn is_claim_valid(e: &Env, _identity: Address, _claim_topic: u32, _scheme: u32, _sig_data: Bytes, _claim_data: Bytes) {
+            if e.storage().instance().get(&symbol_short!("reject")).unwrap_or(false) {
+                panic!("claim rejected by the issuer");
+            }
+        }
+    }
+}
+
 // ---------------------------------------------------------------------------------------------
 // model names <-> values
 // ---------------------------------------------------------------------------------------------
@@ -405,6 +456,55 @@ fn hook_of(name: &str) -> ComplianceHook {
     }
 }
 
+/// claim topic "tN": odd N is the number (N + 1) / 2, even N the same number with a high byte set, so
+/// that t1/t2, t3/t4, ... differ in their high bytes only
+fn ctopic(name: &str) -> u32 {
+    let n = num(name);
+    let low = n.div_ceil(2);
+    if n % 2 == 0 {
+        low | 0x0100_0000 | ((n & 0xff) << 16)
+    } else {
+        low
+    }
+}
+
+/// payload tags of a claim: data "d0" is empty, any other tag is carried literally
+fn cdata(e: &Env, tag: &str) -> Bytes {
+    if tag == "d0" {
+        Bytes::new(e)
+    } else {
+        Bytes::from_slice(e, tag.as_bytes())
+    }
+}
+
+fn cdata_name(b: &Bytes) -> String {
+    if b.is_empty() {
+        return "d0".to_string();
+    }
+    std::string::String::from_utf8(b.iter().collect()).unwrap_or_else(|_| "?".to_string())
+}
+
+fn csig(e: &Env, tag: &str) -> Bytes {
+    Bytes::from_slice(e, format!("sig:{tag}").as_bytes())
+}
+
+fn csig_name(b: &Bytes) -> String {
+    let v = std::string::String::from_utf8(b.iter().collect()).unwrap_or_default();
+    v.strip_prefix("sig:").unwrap_or("?").to_string()
+}
+
+fn curi(e: &Env, tag: &str) -> SStr {
+    SStr::from_str(e, &format!("https://claim/{tag}"))
+}
+
+fn curi_name(u: &SStr) -> String {
+    u.to_string().strip_prefix("https://claim/").unwrap_or("?").to_string()
+}
+
+fn hex32(b: &BytesN<32>) -> String {
+    b.to_array().iter().map(|x| format!("{x:02x}")).collect()
+}
+
 // ---------------------------------------------------------------------------------------------
 // the system under test: one registry contract per run
 // ---------------------------------------------------------------------------------------------
@@ -422,10 +522,14 @@ struct Sys {
     /// every element of the universes and every index 0..=count is probed after every call
     full: bool,
     step_no: u64,
+    /// claims: the 32-byte ids of the universe by name "topic/issuer" (first pair wins), as
+    /// `generate_claim_id` gave them when the run began
+    ids: HashMap<[u8; 32], String>,
 }
 
 /// keys: signing keys, topics, registries / cti: topics, issuers / binder: tokens / docs: names /
-/// irs: accounts / modules: hooks, modules.  Regime "mc" is the universe of MC_Registries.
+/// irs: accounts / modules: hooks, modules / claims: topics, issuers.  Regime "mc" is the universe of
+/// MC_Registries.
 fn universe(fl: &str, regime: &str) -> (Vec<String>, Vec<String>, Vec<String>, bool) {
     let none = Vec::new;
     match (fl, regime) {
@@ -450,6 +554,9 @@ fn universe(fl: &str, regime: &str) -> (Vec<String>, Vec<String>, Vec<String>, b
         ("modules", "mc") => (vec!["Created".into(), "CanTransfer".into()], names("m", 3), none(), true),
         ("modules", "small") => (HOOKS.iter().map(|h| h.to_string()).collect(), names("m", 4), none(), true),
         ("modules", "cap") => (vec!["Created".into(), "CanTransfer".into()], names("m", MAX_MODULES + 2), none(), true),
+        ("claims", "mc") => (names("t", 2), names("i", 3), none(), true),
+        ("claims", "small") => (names("t", 3), names("i", 4), none(), true),
+        ("claims", "list") => (names("t", 2), names("i", 12), none(), true),
         (f, r) => panic!("flavour {f} regime {r}"),
     }
 }
@@ -463,6 +570,7 @@ fn limits(fl: &str) -> Value {
         "docs" => json!({"max": docs_lib::MAX_DOCUMENTS, "bucket": docs_lib::BUCKET_SIZE}),
         "irs" => json!({"countries": MAX_COUNTRY_ENTRIES}),
         "modules" => json!({"modules": MAX_MODULES}),
+        "claims" => json!({"none": 0}),
         f => panic!("flavour {f}"),
     }
 }
@@ -480,31 +588,50 @@ impl Sys {
             "docs" => e.register(docs_c::Docs, ()),
             "irs" => e.register(irs_c::Irs, ()),
             "modules" => e.register(modules_c::Modules, ()),
+            "claims" => e.register(claims_c::Claims, ()),
             f => panic!("flavour {f}"),
         };
         let (u1, u2, u3, full) = universe(fl, regime);
-        let mut sys = Sys { e, fl: fl.into(), regime: regime.into(), c, pool: Pool::new(), u1, u2, u3, full, step_no: 0 };
+        let mut sys =
+            Sys { e, fl: fl.into(), regime: regime.into(), c, pool: Pool::new(), u1, u2, u3, full, step_no: 0, ids: HashMap::new() };
         // addresses of the whole universe
         let addr_names: Vec<String> = match fl {
             "keys" => sys.u3.clone(),
             "cti" => sys.u2.clone(),
             "binder" | "irs" => sys.u1.clone(),
-            "modules" => sys.u2.clone(),
+            "modules" | "claims" => sys.u2.clone(),
             _ => vec![],
         };
         for n in &addr_names {
             sys.ensure(n);
         }
         no_auth(&sys.e);
+        if fl == "claims" {
+            let cl = claims_c::ClaimsClient::new(&sys.e, &sys.c);
+            for t in &sys.u1 {
+                for i in &sys.u2 {
+                    if let Ok(Ok(id)) = cl.try_generate_claim_id(&sys.pool.get(i), &ctopic(t)) {
+                        sys.ids.entry(id.to_array()).or_insert(format!("{t}/{i}"));
+                    }
+                }
+            }
+        }
         sys
     }
 
+    /// a claim id by the name of the first (topic, issuer) of the universe it belongs to, else in hex
+    fn id_name(&self, id: &BytesN<32>) -> String {
+        self.ids.get(&id.to_array()).cloned().unwrap_or_else(|| hex32(id))
+    }
+
     /// the address behind a model name; registries of the "keys" flavour are contracts that
-    /// answer `has_claim_topic` with yes
+    /// answer `has_claim_topic` with yes, issuers of the "claims" flavour scripted claim issuers
     fn ensure(&mut self, name: &str) -> Address {
         if !self.pool.has(name) {
             let a = if self.fl == "keys" {
                 self.e.register(yesreg_c::YesRegistry, ())
+            } else if self.fl == "claims" {
+                self.e.register(issuer_c::ScriptedIssuer, ())
             } else {
                 use soroban_sdk::testutils::Address as _;
                 Address::generate(&self.e)
@@ -528,6 +655,7 @@ impl Sys {
             "binder" => self.obs_binder(),
             "docs" => self.obs_docs(),
             "irs" => self.obs_irs(),
+            "claims" => self.obs_claims(),
             _ => self.obs_modules(),
         }
     }
@@ -799,6 +927,49 @@ impl Sys {
     }
 }
 
+fn no_claim(t: &str, i: &str, id: String) -> Value {
+    json!({"t": t, "i": i, "id": id, "ok": false, "topic": "none", "issuer": "none", "data": "none", "scheme": 0,
+           "uri": "none", "sig": "none"})
+}
+
+impl Sys {
+    fn topic_name(&self, t: u32) -> String {
+        self.u1.iter().find(|n| ctopic(n) == t).cloned().unwrap_or_else(|| "?".to_string())
+    }
+
+    fn claim_json(&self, t: &str, i: &str, id: String, c: &Claim) -> Value {
+        json!({"t": t, "i": i, "id": id, "ok": true, "topic": self.topic_name(c.topic), "issuer": self.pool.name(&c.issuer),
+               "data": cdata_name(&c.data), "scheme": c.scheme.min(1 << 30), "uri": curi_name(&c.uri),
+               "sig": csig_name(&c.signature)})
+    }
+
+    /// generate_claim_id and get_claim for every (topic, issuer), get_claim_ids_by_topic for every topic
+    fn obs_claims(&self) -> Value {
+        let e = &self.e;
+        let cl = claims_c::ClaimsClient::new(e, &self.c);
+        let mut claim = Vec::new();
+        let mut byt = JMap::new();
+        for t in &self.u1 {
+            for i in &self.u2 {
+                let p = match cl.try_generate_claim_id(&self.pool.get(i), &ctopic(t)) {
+                    Ok(Ok(id)) => match cl.try_get_claim(&id) {
+                        Ok(Ok(c)) => self.claim_json(t, i, self.id_name(&id), &c),
+                        _ => no_claim(t, i, self.id_name(&id)),
+                    },
+                    _ => no_claim(t, i, "?".to_string()),
+                };
+                claim.push(p);
+            }
+            let l: Vec<String> = match cl.try_get_claim_ids_by_topic(&ctopic(t)) {
+                Ok(Ok(v)) => v.iter().map(|id| self.id_name(&id)).collect(),
+                _ => vec!["?".into()],
+            };
+            byt.insert(t.clone(), json!(l));
+        }
+        json!({"full": true, "claim": claim, "byt": byt})
+    }
+}
+
 // ---------------------------------------------------------------------------------------------
 // calls
 // ---------------------------------------------------------------------------------------------
@@ -813,6 +984,7 @@ impl Sys {
         let (a, b, c) = (s(op, "a").to_string(), s(op, "b").to_string(), s(op, "c").to_string());
         let xs = strs(op, "xs");
         let nn = n(op, "n").clamp(0, u32::MAX as i64) as u32;
+        let mut ret = "none".to_string();
         let (res, code) = match kind {
             // ---- keys: a = key, b = topic, c = registry
             "allow" | "remove" => {
@@ -909,9 +1081,36 @@ impl Sys {
                 let m = self.ensure(&b);
                 res_of(&modules_c::ModulesClient::new(e, &self.c).try_remove_module_from(&hook_of(&a), &m))
             }
+            // ---- claims: a = topic, b = issuer, c = data, n = scheme, xs = [uri, signature]
+            "add_claim" | "add_invalid" => {
+                let cl = claims_c::ClaimsClient::new(e, &self.c);
+                let issuer = self.ensure(&b);
+                let (uri, sig) = (xs.first().cloned().unwrap_or_default(), xs.get(1).cloned().unwrap_or_default());
+                let script = issuer_c::ScriptedIssuerClient::new(e, &issuer);
+                if kind == "add_invalid" {
+                    script.set_reject(&true);
+                }
+                no_auth(e);
+                let r = cl.try_add_claim(&ctopic(&a), &nn, &issuer, &csig(e, &sig), &cdata(e, &c), &curi(e, &uri));
+                if let Ok(Ok(id)) = &r {
+                    ret = self.id_name(id);
+                }
+                if kind == "add_invalid" {
+                    script.set_reject(&false);
+                }
+                res_of(&r)
+            }
+            "remove_claim" => {
+                let cl = claims_c::ClaimsClient::new(e, &self.c);
+                let issuer = self.ensure(&b);
+                match cl.try_generate_claim_id(&issuer, &ctopic(&a)) {
+                    Ok(Ok(id)) => res_of(&cl.try_remove_claim(&id)),
+                    _ => ("fail", -4),
+                }
+            }
             k => panic!("op {k}"),
         };
-        json!({"op": op, "now": seq(e), "res": res, "err": code, "obs": self.obs()})
+        json!({"op": op, "now": seq(e), "res": res, "ret": ret, "err": code, "obs": self.obs()})
     }
 }
 
@@ -934,6 +1133,11 @@ struct Shadow {
     ident: BTreeMap<String, usize>, // account -> number of country entries
     recovered: BTreeSet<String>,
     mods: BTreeSet<(String, String)>,
+    /// claims: live (topic, issuer) pairs, the ids of each topic in the order last listed, and the
+    /// number of live claims at which the current growing phase ends
+    claims: BTreeSet<(String, String)>,
+    byt: BTreeMap<String, Vec<String>>,
+    target: usize,
     /// growing (add-heavy) or shrinking (remove-heavy) phase, and how long it still lasts
     grow: bool,
     left: usize,
@@ -983,6 +1187,8 @@ impl Shadow {
                 }
                 "add_module" => drop(self.mods.insert((a, b))),
                 "remove_module" => drop(self.mods.remove(&(a, b))),
+                "add_claim" => drop(self.claims.insert((a, b))),
+                "remove_claim" => drop(self.claims.remove(&(a, b))),
                 _ => {}
             }
         }
@@ -994,6 +1200,12 @@ impl Shadow {
             if obs["full"] == true {
                 self.order = l.iter().filter(|p| p["ok"] == true).map(|p| p["k"].as_str().unwrap_or("?").to_string()).collect();
             }
+        }
+        if let Some(m) = obs.get("byt").and_then(|v| v.as_object()) {
+            self.byt = m
+                .iter()
+                .map(|(t, l)| (t.clone(), l.as_array().map(|l| l.iter().map(|x| x.as_str().unwrap_or("?").to_string()).collect()).unwrap_or_default()))
+                .collect();
         }
         if self.left > 0 {
             self.left -= 1;
@@ -1133,6 +1345,51 @@ fn gen_modules(r: &mut StdRng, sys: &Sys, sh: &Shadow) -> Value {
         mk("remove_module", &x.0, &x.1, "none", &[], 0)
     } else {
         mk("remove_module", &hook(r), &pick_s(r, &sys.u2), "none", &[], 0)
+    }
+}
+
+fn gen_claims(r: &mut StdRng, sys: &Sys, sh: &Shadow) -> Value {
+    // regime "list" keeps most of the traffic on one topic, so that its id list grows long
+    let topic = |r: &mut StdRng| if sys.regime == "list" && r.gen_bool(0.8) { "t1".to_string() } else { pick_s(r, &sys.u1) };
+    let payload = |r: &mut StdRng| -> (String, Vec<String>, i64) {
+        let d = format!("d{}", r.gen_range(0..5));
+        let xs = vec![format!("u{}", r.gen_range(1..4)), format!("s{}", r.gen_range(1..4))];
+        (d, xs, *pick(r, &[101i64, 102, 103, 0, 7]))
+    };
+    // a live claim: by position in its topic's id list (first, last, next to last, anywhere)
+    let live = |r: &mut StdRng| -> Option<(String, String)> {
+        let t = topic(r);
+        let order = sh.byt.get(&t).filter(|l| !l.is_empty()).or_else(|| sh.byt.values().find(|l| !l.is_empty()))?;
+        let id = pick_edge(r, order, usize::MAX / 2);
+        id.split_once('/').map(|(t, i)| (t.to_string(), i.to_string()))
+    };
+    let absent = |r: &mut StdRng| -> (String, String) {
+        let t = topic(r);
+        let i = pick_where(r, &sys.u2, &|i| !sh.claims.contains(&(t.clone(), i.clone())));
+        (t, i)
+    };
+    let add = |kind: &str, r: &mut StdRng, (t, i): (String, String)| {
+        let (d, xs, sch) = payload(r);
+        mk(kind, &t, &i, &d, &xs, sch)
+    };
+    let roll = r.gen_range(0..100);
+    let (p_new, p_over, p_rem, p_gone) = if sh.grow { (48, 68, 80, 88) } else { (8, 18, 78, 88) };
+    if roll < p_new {
+        let x = absent(r);
+        add("add_claim", r, x)
+    } else if roll < p_over {
+        let x = live(r).unwrap_or_else(|| absent(r));
+        add("add_claim", r, x)
+    } else if roll < p_rem {
+        let (t, i) = live(r).unwrap_or_else(|| absent(r));
+        mk("remove_claim", &t, &i, "none", &[], 0)
+    } else if roll < p_gone {
+        let (t, i) = absent(r);
+        mk("remove_claim", &t, &i, "none", &[], 0)
+    } else {
+        // the issuer rejects: a new claim or an overwrite
+        let x = if r.gen_bool(0.5) { live(r).unwrap_or_else(|| absent(r)) } else { absent(r) };
+        add("add_invalid", r, x)
     }
 }
 
@@ -1380,7 +1637,7 @@ fn denone(op: &mut Value, sys: &Sys) {
     if op["a"] == "none" && kind != "bind_batch" {
         op["a"] = json!(if issuer_op { sys.u2[0].clone() } else { sys.u1[0].clone() });
     }
-    if op["b"] == "none" && matches!(kind.as_str(), "allow" | "remove" | "add_module" | "remove_module") {
+    if op["b"] == "none" && matches!(kind.as_str(), "allow" | "remove" | "add_module" | "remove_module" | "add_claim" | "add_invalid" | "remove_claim") {
         op["b"] = json!(sys.u2[0].clone());
     }
     if op["b"] == "none" && kind == "recover" {
@@ -1392,10 +1649,11 @@ fn denone(op: &mut Value, sys: &Sys) {
 }
 
 /// the runs of one driver cycle; the two heavy ones reach 10 000 tokens / 5 000 documents
-const CYCLE: [(&str, &str); 15] = [
+const CYCLE: [(&str, &str); 17] = [
     ("keys", "small"), ("cti", "small"), ("binder", "small"), ("docs", "small"), ("irs", "small"), ("modules", "small"),
+    ("claims", "small"),
     ("keys", "rpk"), ("keys", "kpt"), ("cti", "topics"), ("cti", "issuers"), ("binder", "bucket"), ("docs", "bucket"),
-    ("modules", "cap"), ("binder", "cap"), ("docs", "cap"),
+    ("modules", "cap"), ("claims", "list"), ("binder", "cap"), ("docs", "cap"),
 ];
 
 /// calls of the random phase of a run: at least `len`, and enough to cross the limit the regime is about
@@ -1405,6 +1663,7 @@ fn run_len(fl: &str, regime: &str, len: usize) -> usize {
         ("keys", "rpk") | ("keys", "kpt") | ("cti", "topics") | ("cti", "issuers") | ("modules", "cap") => 50,
         ("binder", "bucket") | ("docs", "bucket") => 70,
         ("irs", _) => 70,
+        ("claims", "list") => 60,
         (_, "cap") => usize::MAX, // scripted
         _ => 0,
     };
@@ -1436,6 +1695,7 @@ fn drive_run(r: &mut StdRng, t: &mut Trace, fl: &str, regime: &str, len: usize) 
             ("binder", _) => Some(gen_binder(r, &sys, &sh)),
             ("docs", _) => Some(gen_docs(r, &sys, &sh, (i % 1000) as i64)),
             ("irs", _) => Some(gen_irs(r, &sys, &sh)),
+            ("claims", _) => Some(gen_claims(r, &sys, &sh)),
             _ => Some(gen_modules(r, &sys, &sh)),
         };
         let Some(mut op) = op else { break };
@@ -1444,9 +1704,15 @@ fn drive_run(r: &mut StdRng, t: &mut Trace, fl: &str, regime: &str, len: usize) 
         let ev = sys.step(&op);
         sh.apply(&op, &ev);
         // phases: grow until additions have been refused a few times, shrink for a while, grow again
-        if sh.grow && sh.refused_adds >= 3 {
+        // (claims are never refused for being too many: the growing phase ends at a number of live claims)
+        if fl == "claims" && sh.target == 0 {
+            let all = sys.u1.len() * sys.u2.len();
+            sh.target = r.gen_range(all / 3..=all - all / 6);
+        }
+        if sh.grow && (sh.refused_adds >= 3 || (fl == "claims" && sh.claims.len() >= sh.target)) {
             sh.grow = false;
             sh.left = r.gen_range(3..14);
+            sh.target = 0;
         } else if !sh.grow && sh.left == 0 {
             sh.grow = true;
             sh.refused_adds = 0;
